@@ -24,6 +24,9 @@ import (
 	"github.com/ryogrid/SamehadaDB/lib/samehada/samehada_util"
 	"github.com/ryogrid/SamehadaDB/lib/storage/access"
 	"github.com/ryogrid/SamehadaDB/lib/storage/disk"
+	"github.com/ryogrid/SamehadaDB/lib/storage/index/index_constants"
+	"github.com/ryogrid/SamehadaDB/lib/storage/table/column"
+	"github.com/ryogrid/SamehadaDB/lib/storage/table/schema"
 	"github.com/ryogrid/SamehadaDB/lib/storage/tuple"
 	"github.com/ryogrid/SamehadaDB/lib/types"
 	"verif/simrt"
@@ -575,4 +578,94 @@ func (t *STxn) PointScan(table string, col string, val any) (res ExecResult) {
 	}
 	res.Rows = convRows(samehada_util.ConvTupleListToValues(sc, result))
 	return
+}
+
+// CreateTableAPI creates a table through the catalog (what the SQL front end does for CREATE TABLE,
+// which always asks for skip list indexes) with the index kind per column given in ts.IdxKinds:
+// "" = skip list, "btree", "uniq" (unique skip list).
+func (s *SUT) CreateTableAPI(ts *TableSpec) (res ExecResult) {
+	if s.Dead {
+		res.Err = errDead
+		return
+	}
+	defer s.catch(&res.Panic)
+	if s.Cat.GetTableByName(ts.Name) != nil {
+		res.Err = fmt.Errorf("table %s exists", ts.Name)
+		return
+	}
+	var cols []*column.Column
+	for i, c := range ts.Cols {
+		kind := index_constants.IndexKindSkipList
+		if i < len(ts.IdxKinds) {
+			switch ts.IdxKinds[i] {
+			case "btree":
+				kind = index_constants.IndexKindBtree
+			case "uniq":
+				kind = index_constants.IndexKindUniqSkipList
+			}
+		}
+		ct := map[ColType]types.TypeID{TInt: types.Integer, TFloat: types.Float, TVarchar: types.Varchar, TBool: types.Boolean}[c.Type]
+		cols = append(cols, column.NewColumn(c.Name, ct, true, kind, types.PageID(-1), nil))
+	}
+	tm := s.Shi.GetTransactionManager()
+	txn := tm.Begin(nil)
+	s.Cat.CreateTable(ts.Name, schema.NewSchema(cols), txn)
+	tm.Commit(s.Cat, txn)
+	s.WarmIndexes()
+	return
+}
+
+// WarmIndexes touches every B-tree index once. The embedded B-tree pins its two bookkeeping pages
+// when it is first used and keeps them pinned for good - the same kind of permanent pins a skip
+// list takes when it is created. Taking them here (after CREATE and after every restart) keeps them
+// out of the per-statement pin accounting (M-PIN), which is about pins a statement leaves behind.
+func (s *SUT) WarmIndexes() {
+	if s == nil || s.Dead {
+		return
+	}
+	var pi *PanicInfo
+	defer s.catch(&pi)
+	tm := s.Shi.GetTransactionManager()
+	txn := tm.Begin(nil)
+	defer tm.Commit(s.Cat, txn)
+	for _, t := range s.Cat.GetAllTables() {
+		sc := t.Schema()
+		for ci := uint32(0); ci < sc.GetColumnCount(); ci++ {
+			col := sc.GetColumn(ci)
+			if !col.HasIndex() || col.IndexKind() != index_constants.IndexKindBtree {
+				continue
+			}
+			idx := t.GetIndex(int(ci))
+			if idx == nil {
+				continue
+			}
+			var v types.Value
+			switch col.GetType() {
+			case types.Integer:
+				v = types.NewInteger(0)
+			case types.Float:
+				v = types.NewFloat(0)
+			case types.Varchar:
+				v = types.NewVarchar("")
+			default:
+				continue
+			}
+			idx.ScanKey(tuple.GenTupleForIndexSearch(sc, ci, &v), txn)
+		}
+	}
+}
+
+// indexKindName: the kind the catalog reports for a column (for the catalog identity check).
+func indexKindName(k index_constants.IndexKind) string {
+	switch k {
+	case index_constants.IndexKindBtree:
+		return "btree"
+	case index_constants.IndexKindUniqSkipList:
+		return "uniq"
+	case index_constants.IndexKindSkipList:
+		return ""
+	case index_constants.IndexKindHash:
+		return "hash"
+	}
+	return "invalid"
 }
